@@ -12,6 +12,7 @@ import (
 	"go/token"
 	"os"
 	"path/filepath"
+	"regexp"
 	"sort"
 	"strconv"
 	"strings"
@@ -789,7 +790,7 @@ func (p *pkg) gatewayFacts() {
 		varsOK = strings.Contains(t, "variables:=map[string]interface{}{}") &&
 			strings.Contains(t, "forvariable:=rangestep.Variables{ifvalue,ok:=queryVariables[variable];ok{variables[variable]=value}}") &&
 			strings.Contains(t, `variables["id"]=pointData.ID`) && strings.Contains(t, "Variables:variables,") &&
-			strings.Count(t, "variables[") == 2
+			len(regexp.MustCompile(`variables\[[^\]]*\]=[^=]`).FindAllString(t, -1)) == 2
 	}
 	emit("def execVarsOnlyStepSet : Bool := %s", leanBool(varsOK))
 	// the operation type of a step's query
